@@ -48,3 +48,20 @@ for _p in sorted(_glob.glob(_os.path.join(_os.path.dirname(_os.path.abspath(__fi
     _m = _ilu.module_from_spec(_spec)
     _spec.loader.exec_module(_m)
     PROPS[_os.path.basename(_p)[6:9]] = _m.SPEC
+
+# re-entrancy monitor (DESIGN.md 4, "schedules"): every C check gets a configuration "mt" built with -fsanitize=thread, in which the
+# anchored routines are run alone and then from four threads at once on private data (harness/vf_mt.h). C17-C19 name theirs in the spec.
+_MT_READY = [1, 2, 3]
+
+
+def _with_mt(spec, n, extra=()):
+    base = spec.get('configs', lambda tier: [dict(name='default')])
+    mt = [dict(name='mt', harness=['h_mt_all.c'], hflags=['-DVF_MT=%d' % n], flavour='tsan', nworkers=1)] + \
+         [dict(c, harness=['h_mt_all.c'], hflags=['-DVF_MT=%d' % n], flavour='tsan', nworkers=1) for c in extra]
+    spec['configs'] = lambda tier: mt + base(tier)
+    spec['parallel_configs'] = spec.get('parallel_configs', 1) + len(mt)
+
+
+for _n in _MT_READY:
+    # C10, C11: the library's own fallback bodies (every A_HAVE_* switch off) run under the monitor as well
+    _with_mt(PROPS['C%02d' % _n], _n, [dict(name='mt-fallback', have=[])] if _n in (10, 11) else ())
